@@ -875,6 +875,16 @@ func (vc *VC) findLoops(fr *Frame) {
 	sort.Slice(headers, func(i, j int) bool { return headers[i].Index < headers[j].Index })
 	for i, h := range headers {
 		li := &loopInfo{header: h, blocks: body[h], ordinal: i}
+		if os.Getenv("VERIF_DEBUG_LOOPS") != "" && fr.top {
+			pos := token.NoPos
+			for _, in := range h.Instrs {
+				if in.Pos() != token.NoPos {
+					pos = in.Pos()
+					break
+				}
+			}
+			fmt.Fprintf(os.Stderr, "loop %d of %s: header block %d at %s\n", i, fr.fn.Name(), h.Index, vc.eng.prog.Fset.Position(pos))
+		}
 		if fr.spec != nil {
 			li.spec = fr.spec.Loops[i]
 		}
